@@ -3,16 +3,26 @@
 
     circuits/ckks/bootstrapping/keys.go        : GenEvaluationKeys, genEncapsulationEvaluationKeysNew
     circuits/ckks/bootstrapping/parameters.go  : NewParametersFromLiteral (level layout), GaloisElements
-    circuits/ckks/bootstrapping/evaluator.go   : bootstrap / Evaluate level schedule, ModUp (Trace), checkKeys
+    circuits/ckks/bootstrapping/evaluator.go   : bootstrap / Evaluate level schedule, ModUp (Trace), checkKeys,
+                                                 initialize (qDiv, C2S/S2C scaling constants, §8),
+                                                 ScaleDown / checkMessageRatio on exact integers (§9)
     circuits/ckks/dft/dft.go                   : MatrixLiteral.GaloisElements, computeBootstrappingDFTIndexMap,
                                                  addMatrixRotToList (the HELPER side);
                                                  GenMatrices / NewMatrixFromLiteral index bookkeeping,
-                                                 CoeffsToSlots / SlotsToCoeffs rotations (the EVALUATOR side)
+                                                 CoeffsToSlots / SlotsToCoeffs rotations (the EVALUATOR side);
+                                                 fftPlainVec / ifftPlainVec entries, genFFTDiagMatrix,
+                                                 multiplyFFTMatrixWithNextFFTLevel, GenMatrices values for vectors
+                                                 of length `slots` (§10, generic in the entry type)
+    schemes/ckks/evaluator.go                  : RescaleTo loop as used by ScaleDown (§9)
     circuits/common/lintrans/lintrans.go       : BSGSIndex, FindBestBSGSRatio, NewLinearTransformation (keys of Vec)
     circuits/common/lintrans/lintrans_evaluator.go : EvaluateMany / MultiplyByDiagMatrixBSGS (requested keys)
     circuits/ckks/mod1/mod1_parameters.go      : ParametersLiteral.Depth
     core/rlwe/inner_sum.go                     : Trace (requested keys)
     core/rlwe/params.go                        : GaloisElement
+
+  Not modelled: polynomial evaluation (`mod1`, Chebyshev), encoding/float arithmetic, noise, the ring arithmetic of
+  ModUp / key switching (properties C01–C04), runtime aliasing (ShallowCopy); sparse `RepackImagAsReal` VALUES (§10
+  covers indices for all formats, values for length-`slots` vectors only).
 
   Core Lean only.  Go `map[int]bool` index sets are lists without duplicates (insertion order is
   irrelevant: every consumer either takes the length or is compared as a set).
@@ -515,5 +525,170 @@ def ScaleLit.c2sScaling (l : ScaleLit) : Nat × Nat := (2 ^ (roundLog2 l.q0 - l.
     ring is conjugate invariant (`SlotsToCoeffsParameters.Scaling = 0.5` in `NewEvaluator`). -/
 def ScaleLit.s2cScalingLog (l : ScaleLit) : Int :=
   (l.logDefaultScale : Int) + l.logMessageRatio - l.evalModLogScale - (if l.conjInv then 1 else 0)
+
+/-! ## 9. `ScaleDown`: message-ratio arithmetic on exact integers
+
+  `Evaluator.ScaleDown` works on `rlwe.Scale` values (128-bit `big.Float`); the model uses the exact
+  rationals they approximate. `qs` is the modulus chain `Q[0], Q[1], …`, `S` the input scale (an
+  integer: scales are `2^LogDefaultScale`), `r = LogMessageRatio`, `e = round(log2 Q[0])`
+  (`Mod1Parameters.QDiff = Q[0]/2^e`). -/
+
+/-- `ring.ModulusAtLevel[l]` -/
+def modulusAt (qs : List Nat) (l : Nat) : Nat := (qs.take (l + 1)).foldl (· * ·) 1
+
+/-- the loop `for ctIn.Level() != 0 && checkMessageRatio(…) { drop the last prime }`:
+    `checkMessageRatio` is `Q_l / S ≥ q_l · MessageRatio`, i.e. `Q_{l-1} ≥ S · 2^r`. -/
+def dropLevels (qs : List Nat) (S r : Nat) : Nat → Nat
+  | 0 => 0
+  | l + 1 => if S * 2 ^ r ≤ modulusAt qs l then dropLevels qs S r l else l + 1
+
+/-- `float64(q)` for `q < 2^64`: rounding to 53 significant bits, ties to even. -/
+def f64round (q : Nat) : Nat :=
+  let sh := Nat.log2 q - 52
+  if Nat.log2 q < 53 then q
+  else
+    let t := q / 2 ^ sh
+    let rem := q % 2 ^ sh
+    let half := 2 ^ (sh - 1)
+    let up := if half < rem ∨ (rem = half ∧ t % 2 = 1) then 1 else 0
+    (t + up) * 2 ^ sh
+
+/-- `scaleUp = (Q_l / S) / MessageRatio`, divided by `qDiff` when `l ≠ 0`, as a fraction.
+    `qDiff = Mod1Parameters.QDiff` is the float64 `float64(Q[0]) / 2^e`, i.e. exactly `f64round(Q[0]) / 2^e`. -/
+def scaleUpFrac (qs : List Nat) (S r l : Nat) : Nat × Nat :=
+  if l = 0 then (modulusAt qs 0, S * 2 ^ r)
+  else (modulusAt qs l * 2 ^ roundLog2 (qs.headD 1), S * 2 ^ r * f64round (qs.headD 1))
+
+/-- `Scale.BigInt()`: `floor(x + 1/2)` -/
+def roundHalfUp (num den : Nat) : Nat := (2 * num + den) / (2 * den)
+
+/-- the loop of `RescaleTo(ct, targetScale)` with `targetScale = tnum / tden`:
+    divide by `q_lv` while the quotient stays `≥ targetScale / 2`. `sn / den` is the current scale.
+    Returns the final level and the product of the primes divided out. -/
+def rescaleLoop (qs : List Nat) (sn tnum tden : Nat) : (lv : Nat) → (den : Nat) → Nat × Nat
+  | 0, den => (0, den)
+  | lv + 1, den =>
+    let q := qs.getD (lv + 1) 1
+    if den * q * tnum ≤ 2 * sn * tden then rescaleLoop qs sn tnum tden lv (den * q) else (lv + 1, den)
+
+/-- `Evaluator.ScaleDown` on a ciphertext at level `l` with scale `S`:
+    `none` = the error "initial Q/Scale < 0.5*Q[0]/MessageRatio";
+    `some (level, n, den)`: output level, the integer `scaleUpBigint = n` the ciphertext is multiplied
+    with, and the product `den` of the primes rescaled away — the output scale is `S · n / den`. -/
+def scaleDown (qs : List Nat) (S r l : Nat) : Option (Nat × Nat × Nat) :=
+  let l' := dropLevels qs S r l
+  let (num, dn) := scaleUpFrac qs S r l'
+  if 2 * num < dn then none
+  else
+    let n := roundHalfUp num dn
+    if l' = 0 then some (0, n, 1)
+    else
+      -- targetScale = Q[0] / MessageRatio / qDiff = Q[0]·2^e / (2^r · f64round Q[0])
+      let (lv, den) := rescaleLoop qs (S * n) (qs.headD 1 * 2 ^ roundLog2 (qs.headD 1)) (2 ^ r * f64round (qs.headD 1)) l' 1
+      some (lv, n, den)
+
+/-! ## 10. The DFT factorisation with exact entries
+
+  `fftPlainVec` / `ifftPlainVec` fill three vectors `a, b, c` per butterfly layer with `0`, `±1`, `±ζ^k`
+  (`ζ = roots[1]`, the primitive `4·slots`-th root of unity); `genFFTDiagMatrix` turns a layer into the
+  three-diagonal matrix `diag(a) + diag(b)·Rot_rot + diag(c)·Rot_{-rot}` and
+  `multiplyFFTMatrixWithNextFFTLevel` multiplies a matrix in diagonal form with the next layer.
+  The model is generic in the entry type `α` (the driver prints the layers with `α = RootEnt`,
+  the theorems interpret them in any commutative ring with a root `ζ`, `ζ^(4·slots) = 1`).
+  Covered: vectors of length `slots` (full packing, or sparse packing without `RepackImagAsReal`),
+  `BitReversed = false`. Not covered: the doubled vectors and the special first / masked last matrix of
+  the sparse `RepackImagAsReal` format. -/
+
+/-- an entry of a layer vector: `0`, `ζ^k` or `-ζ^k` -/
+inductive RootEnt | zero | pos (k : Nat) | neg (k : Nat)
+deriving Repr, DecidableEq
+
+/-- one butterfly layer: rotation and the three vectors as functions of the slot index -/
+structure Layer (α : Type) where
+  rot : Nat
+  a : Nat → α
+  b : Nat → α
+  c : Nat → α
+
+/-- `pow5[j] & (4m-1)` = `5^j mod 4m` (`pow5[j] = 5^j mod 4·slots` and `4m | 4·slots`) -/
+def pow5mod (j m4 : Nat) : Nat := modExpLoop m4 64 j (5 % m4) (1 % m4)
+
+/-- layer of `fftPlainVec` (Decode) for butterfly size `m` (`2 ≤ m ≤ slots`, powers of two):
+    positions `i+j` (`j < m/2`): `a = 1`, `b = ζ^k`; positions `i+j+m/2`: `a = -ζ^k`, `c = 1`;
+    `k = (5^j mod 4m)·(slots/m)`. -/
+def fftLayer (slots m : Nat) : Layer RootEnt :=
+  let tt := m / 2
+  let k := fun x => pow5mod (x % m % tt) (4 * m) * (slots / m)
+  { rot := tt
+    a := fun x => if x % m < tt then .pos 0 else .neg (k x)
+    b := fun x => if x % m < tt then .pos (k x) else .zero
+    c := fun x => if x % m < tt then .zero else .pos 0 }
+
+/-- layer of `ifftPlainVec` (Encode): positions `i+j`: `a = 1`, `b = 1`; positions `i+j+m/2`: `a = -ζ^k'`,
+    `c = ζ^k'`; `k' = (4m - 5^j mod 4m)·(slots/m)`. -/
+def ifftLayer (slots m : Nat) : Layer RootEnt :=
+  let tt := m / 2
+  let k := fun x => (4 * m - pow5mod (x % m % tt) (4 * m)) * (slots / m)
+  { rot := tt
+    a := fun x => if x % m < tt then .pos 0 else .neg (k x)
+    b := fun x => if x % m < tt then .pos 0 else .zero
+    c := fun x => if x % m < tt then .zero else .pos (k x) }
+
+/-- the layer used at FFT level `lvl` (`lvl = logSlots … 1`): tables `a[logSlots - lvl]`, i.e. butterfly size
+    `2^lvl` for Encode (`m = N, N/2, …`) and `2^(logSlots - lvl + 1)` for Decode (`m = 2, 4, …`). -/
+def dftLayer (encode : Bool) (logSlots lvl : Nat) : Layer RootEnt :=
+  if encode then ifftLayer (2 ^ logSlots) (2 ^ lvl) else fftLayer (2 ^ logSlots) (2 ^ (logSlots - lvl + 1))
+
+/-- a matrix in diagonal form: `map[int][]T` as an association list, vectors as functions of the slot -/
+abbrev DiagMat (α : Type) := List (Nat × (Nat → α))
+
+/-- `addToDiagMatrix`: create the diagonal or add to the existing one -/
+def addToDiag {α : Type} [Add α] : DiagMat α → Nat → (Nat → α) → DiagMat α
+  | [], i, v => [(i, v)]
+  | (j, w) :: rest, i, v => if j = i then (j, fun x => w x + v x) :: rest else (j, w) :: addToDiag rest i v
+
+/-- `genFFTDiagMatrix`: diagonals `0`, `rot`, `n - rot` -/
+def layerDiag {α : Type} [Add α] (n : Nat) (l : Layer α) : DiagMat α :=
+  addToDiag (addToDiag (addToDiag [] 0 l.a) l.rot l.b) (n - l.rot) l.c
+
+/-- `multiplyFFTMatrixWithNextFFTLevel(vec, logL, N, …, a, b, c)` with `rot = l.rot & (N-1)`:
+    every diagonal `(i, v)` contributes `a ⊙ v` to `i`, `b ⊙ rot_rot(v)` to `(i+rot) mod N` and
+    `c ⊙ rot_{-rot}(v)` to `(i-rot) mod N` (`rotateAndMulNew`). -/
+def mulNextLayer {α : Type} [Add α] [Mul α] (n : Nat) (vec : DiagMat α) (l : Layer α) : DiagMat α :=
+  let rot := l.rot % n
+  vec.foldl (fun acc iv =>
+    addToDiag
+      (addToDiag
+        (addToDiag acc iv.1 (fun x => l.a x * iv.2 x))
+        ((iv.1 + rot) % n) (fun x => l.b x * iv.2 ((x + rot) % n)))
+      ((iv.1 + (n - rot)) % n) (fun x => l.c x * iv.2 ((x + (n - rot)) % n))) []
+
+/-- the inner merge loop over the next `cnt` levels -/
+def mergeLayers {α : Type} [Add α] [Mul α] (n : Nat) (layer : Nat → Layer α) :
+    (cnt : Nat) → (nextLevel : Nat) → DiagMat α → DiagMat α
+  | 0, _, vec => vec
+  | c + 1, nl, vec => mergeLayers n layer c (nl - 1) (mulNextLayer n vec (layer nl))
+
+/-- the matrices of `GenMatrices` (before the scaling): one per entry of the merge schedule -/
+def factorMats {α : Type} [Add α] [Mul α] (n : Nat) (layer : Nat → Layer α) : (level : Nat) → List Nat → List (DiagMat α)
+  | _, [] => []
+  | level, m :: ms =>
+    mergeLayers n layer (m - 1) (level - 1) (layerDiag n (layer level)) :: factorMats n layer (level - m) ms
+
+/-- `MatrixLiteral.GenMatrices` for vectors of length `slots`, every diagonal multiplied by `σ`
+    (`σ = scaling^(1/Depth(false))`). -/
+def genMatricesVals {α : Type} [Add α] [Mul α] (d : MatLit) (layer : Nat → Layer α) (σ : α) : List (DiagMat α) :=
+  (factorMats (2 ^ d.logSlots) layer d.logSlots (mergeSched d)).map fun M =>
+    M.map fun iv => (iv.1, fun x => iv.2 x * σ)
+
+/-- evaluation of a matrix in diagonal form on a vector: `(M x)_i = Σ_d v_d[i] · x[(i+d) mod n]` -/
+def applyDiag {α : Type} [Add α] [Mul α] [Zero α] (n : Nat) (M : DiagMat α) (x : Nat → α) : Nat → α :=
+  fun i => M.foldr (fun iv s => iv.2 i * x ((i + iv.1) % n) + s) 0
+
+/-- canonical exponent of an entry: `ζ^k ↦ k mod 4n`, `-ζ^k ↦ (k + 2n) mod 4n`, `0 ↦ 4n` -/
+def RootEnt.code (n : Nat) : RootEnt → Nat
+  | .zero => 4 * n
+  | .pos k => k % (4 * n)
+  | .neg k => (k + 2 * n) % (4 * n)
 
 end Lattigo.Model.Bootstrap
